@@ -577,7 +577,7 @@ def c19(tier):
     return {
         'rule': 'BSI.tla: both BSI implementations as a partial map column -> integer; MCBSI.tla (TLC): every update/copy call from every map over 3 columns x values -2..1 (125 states x 3 second operands) and simulated 10-step histories, replayed on both implementations under random concretisations; random histories of SetValue/SetBigValue, SetMany, ClearValues, Retain, ParOr on disjoint columns, Add/Increment on non-negative values, Clone, NewBSIRetainSet, MarshalBinary and WriteTo round trips over 6 columns spread over chunks/buckets, abstract values -8..7 scaled by 2^k (k in 0..55, and 70 through the big-value API), auto-sized and fixed-width indexes; after EVERY call the map read back through GetValue/GetBigValue/GetValues/ValueExists/GetCardinality is compared with the specified map by TLC (TraceBSI.tla), plane-within-existence checked on the raw planes',
         'assumptions': ['values and comparison constants stay inside the range the index was created or auto-sized for (DESIGN 8.0)',
-                        'ParOr operands have pairwise disjoint column sets; Add/Increment only on non-negative values; Increment only when values are unscaled',
+                        'ParOr operands have pairwise disjoint column sets; Add/Increment only on non-negative values (a column that holds nothing counts as 0 and exists afterwards); Increment only when values are unscaled',
                         'the harness scaling/unscaling of values by 2^k is exact (math/big)'],
         'trace_module': 'TraceBSI.tla', 'trace_cfg': 'TraceBSI.cfg',
         'phases': [
